@@ -367,6 +367,10 @@ def _fstr_constructor(loader, node):
         try:
             return FStrNode(value, *args, **kwargs)
         except ValueError:
+            # pick a delimiter that does not occur in the format text, quotes inside replacement fields must stay as they are
+            for quote in ("'", '"', "'''", '"""'):
+                if quote not in value and not value.endswith(quote[0]) and ('\n' not in value or len(quote) == 3):
+                    return FStrNode('f' + quote + value + quote, *args, **kwargs)
             return FStrNode("f'" + value.replace(r"'", r"\'") + "'", *args, **kwargs)
 
     return _make_node(loader, node, node_type=_maybe_fix_fstr, parse_scalars=False)
